@@ -751,3 +751,63 @@ func sanitisedAt(g *FG, info *types.Info, v types.Object, x *GNode, isSan func(a
 	})
 	return facts[x]["san"]
 }
+
+// workFunc: the function that does the work a rule is about. If fn's own body contains a node matching pred it is fn; otherwise
+// the unique declared function of the package called from fn (one level) whose body does. paramOf maps a parameter of fn to the
+// parameter of the returned function that receives it unchanged at that call (identity when the work is in fn itself).
+func (ix *PkgIndex) workFunc(fn *FuncInfo, pred func(ast.Node) bool) (work *FuncInfo, paramOf func(*types.Var) *types.Var) {
+	has := func(f *FuncInfo) bool {
+		hit := false
+		inspectNoLit(f.Body(), func(n ast.Node) bool {
+			if pred(n) {
+				hit = true
+			}
+			return !hit
+		})
+		return hit
+	}
+	ident := func(v *types.Var) *types.Var { return v }
+	if fn == nil || has(fn) {
+		return fn, ident
+	}
+	info := fn.Info()
+	var helper *FuncInfo
+	var at *ast.CallExpr
+	n := 0
+	tab := loadAnchors()
+	for _, onlyNew := range []bool{false, true} {
+		helper, at, n = nil, nil, 0
+		inspectNoLit(fn.Body(), func(nd ast.Node) bool {
+			if call, ok := nd.(*ast.CallExpr); ok {
+				if h := ix.declByObj(callee(info, call)); h != nil && h != fn && has(h) {
+					if onlyNew {
+						// among several candidates prefer the one that is not itself an anchor of the pinned tree (a new helper)
+						if _, known := tab.Funcs[ix.Pkg.PkgPath+"|"+h.Name]; known {
+							return true
+						}
+					}
+					if helper != h {
+						n++
+					}
+					helper, at = h, call
+				}
+			}
+			return true
+		})
+		if n == 1 {
+			break
+		}
+	}
+	if n != 1 {
+		return fn, ident
+	}
+	hs := helper.Obj.Type().(*types.Signature)
+	return helper, func(v *types.Var) *types.Var {
+		for i, a := range at.Args {
+			if sameVar(info, a, v) && i < hs.Params().Len() {
+				return hs.Params().At(i)
+			}
+		}
+		return nil
+	}
+}
